@@ -18,7 +18,7 @@ class Gen:
         self.max_stmts = max_stmts
         self.depth = depth
         self.features = features or {"when", "if", "while", "groups", "actions", "activate", "return", "abort",
-                                     "priority", "loop", "vars", "refs", "start", "actionmembers", "params", "endflow"}
+                                     "priority", "loop", "vars", "refs", "start", "actionmembers", "params", "endflow", "globals"}
         self.nvar = 0
         self.flow_params = {}
         self.names = FLOWS[:1]
@@ -179,6 +179,11 @@ class Gen:
             body = self.stmts(1, self.depth, avail)
             # every flow starts with a waiting statement so that activation cannot spin
             first = "  match " + self.ev()
+            if self.has("globals") and self.r.random() < 0.3:
+                # the flow shares the variable $g with every other flow that declares it
+                body = ["  global $g", self.r.choice(["  $g = %d" % self.r.randint(1, 2), "  send Out1(v=$g)", "  match E2(p=$g)"])] + body
+                if self.r.random() < 0.5:
+                    body.append(self.r.choice(["  $g = %d" % self.r.randint(1, 2), "  send Out2(v=$g)"]))
             if params:
                 # use the parameters: in a match pattern, in a sent event, in the return value
                 body = [("  match E2(p=$p)" if self.r.random() < 0.5 else "  send Out3(v=$p)")] + body
@@ -192,6 +197,8 @@ class Gen:
             verbs = ["start", "start", "await"] + (["activate"] if self.has("activate") else [])
             main_body.append("  %s %s" % (self.r.choice(verbs), self.call(f)))
         main_body += self.stmts(1, self.depth, names)
+        if self.has("globals") and self.r.random() < 0.3:
+            main_body = ["  global $g", "  $g = %d" % self.r.randint(1, 2)] + main_body
         main_body.append("  match Never()")
         text.append("flow main\n%s\n" % "\n".join(main_body))
         return "\n".join(text)
